@@ -47,6 +47,23 @@ func init() {
 			{Name: "pointer-passed private key not zeroed", ExpectRule: "C02.R6", Edits: []Edit{
 				{File: "internal/agent/icmp.go", Old: "\t// Zero out private key immediately\n\tcrypto.ZeroKey(ephPrivKey)\n", New: ""},
 			}},
+			{Name: "key-agreement helper takes the stored private key by value (zeroes its copy)", ExpectRule: "C02.R6", Edits: []Edit{
+				{File: "internal/agent/icmp.go", Old: "\tephPrivKey *[32]byte,\n", New: "\tephPrivKey [32]byte,\n"},
+				{File: "internal/agent/icmp.go", Old: "crypto.ComputeECDH(*ephPrivKey, remotePubKey)", New: "crypto.ComputeECDH(ephPrivKey, remotePubKey)"},
+				{File: "internal/agent/icmp.go", Old: "\tcrypto.ZeroKey(ephPrivKey)\n", New: "\tcrypto.ZeroKey(&ephPrivKey)\n"},
+				{File: "internal/agent/icmp.go", Old: "deriveICMPSessionKey(&ingress.EphemeralPrivKey,", New: "deriveICMPSessionKey(ingress.EphemeralPrivKey,"},
+				{File: "internal/agent/icmp.go", Old: "deriveICMPSessionKey(&wsSession.EphemeralPrivKey,", New: "deriveICMPSessionKey(wsSession.EphemeralPrivKey,"},
+			}},
+			{Name: "address of a local copy of the stored private key handed to the consuming helper", ExpectRule: "C02.R6", Edits: []Edit{
+				{File: "internal/agent/icmp.go", Old: "\t\tsessionKey, err := deriveICMPSessionKey(&ingress.EphemeralPrivKey,", New: "\t\tpriv := ingress.EphemeralPrivKey\n\t\tsessionKey, err := deriveICMPSessionKey(&priv,"},
+			}},
+			{Name: "rewrite: by-value helper, callers zero the stored field after the call", Edits: []Edit{
+				{File: "internal/agent/icmp.go", Old: "\tephPrivKey *[32]byte,\n", New: "\tephPrivKey [32]byte,\n"},
+				{File: "internal/agent/icmp.go", Old: "crypto.ComputeECDH(*ephPrivKey, remotePubKey)", New: "crypto.ComputeECDH(ephPrivKey, remotePubKey)"},
+				{File: "internal/agent/icmp.go", Old: "\tcrypto.ZeroKey(ephPrivKey)\n", New: "\tcrypto.ZeroKey(&ephPrivKey)\n"},
+				{File: "internal/agent/icmp.go", Old: "\t\tsessionKey, err := deriveICMPSessionKey(&ingress.EphemeralPrivKey, ingress.EphemeralPubKey, ack.EphemeralPubKey, ack.RequestID)\n", New: "\t\tsessionKey, err := deriveICMPSessionKey(ingress.EphemeralPrivKey, ingress.EphemeralPubKey, ack.EphemeralPubKey, ack.RequestID)\n\t\tcrypto.ZeroKey(&ingress.EphemeralPrivKey)\n"},
+				{File: "internal/agent/icmp.go", Old: "\tsessionKey, err := deriveICMPSessionKey(&wsSession.EphemeralPrivKey, wsSession.EphemeralPubKey, ack.EphemeralPubKey, ack.RequestID)\n", New: "\tsessionKey, err := deriveICMPSessionKey(wsSession.EphemeralPrivKey, wsSession.EphemeralPubKey, ack.EphemeralPubKey, ack.RequestID)\n\tcrypto.ZeroKey(&wsSession.EphemeralPrivKey)\n"},
+			}},
 			{Name: "rewrite: deferred unlock, seal under the lock", Edits: []Edit{
 				{File: "internal/crypto/crypto.go", Old: "\tnonce := s.buildSendNonce()\n\ts.sendNonce++\n\ts.mu.Unlock()\n", New: "\tdefer s.mu.Unlock()\n\tnonce := s.buildSendNonce()\n\ts.sendNonce++\n"},
 			}},
@@ -113,7 +130,7 @@ func runC02(p *kit.Program, r *kit.Report) {
 	r.Rule("C02.R1", "on every path of the sealing entry that reaches Seal, the counter value placed in the nonce and the single increment (+k, k>=1) of the send counter belong to one critical section of the session mutex (or to one atomic read-modify-write); the nonce uses the same offset from the claimed value on all paths; the send counter has no other writer in the repository")
 	r.Rule("C02.R2", "every byte of the nonce handed to AEAD.Seal is a role-determined constant or a byte of the claimed counter value, and all eight bytes of the claimed value are present")
 	r.Rule("C02.R3", "the nonces of the two roles differ in a constant byte (disjoint nonce spaces under the shared key); the role field is written only by the key-derivation constructor")
-	r.Rule("C02.R6", "a long-lived (stored) ephemeral private key is consumed by the key agreement: where ComputeECDH takes its private key from a struct field or through a pointer parameter, that same location is zeroed before the session key is derived, so a duplicated handshake message cannot re-derive the same key with fresh (zero) nonce counters")
+	r.Rule("C02.R6", "a long-lived (stored) ephemeral private key is consumed by the key agreement: where ComputeECDH takes its private key from a struct field or through a pointer parameter - directly or, followed through by-value and pointer parameters into every static caller, via a copy - that same location is zeroed (zeroing a copy does not count) before the session key is derived, so a duplicated handshake message cannot re-derive the same key with fresh (zero) nonce counters")
 	r.Rule("C02.R5", "the key field is accessed only by SessionKey methods, functions confined to the sealing/opening paths and the key-derivation constructor; the AEAD is constructed from it only on the sealing/opening paths; the key getter has no caller in non-test code")
 	cx := newCryptoCtx(p, r)
 	if cx == nil {
@@ -421,10 +438,6 @@ func c02R6(p *kit.Program, r *kit.Report) {
 	if !r.Require(ecdh != nil, "anchor-unresolved: crypto.ComputeECDH") {
 		return
 	}
-	isZeroCall := func(c ssa.CallInstruction) bool {
-		cal := kit.CalleeOf(c)
-		return cal.Pkg == kit.PkgPath("internal/crypto") && (cal.Name == "ZeroKey" || cal.Name == "ZeroBytes")
-	}
 	sites := p.StaticCallers(ecdh)
 	r.Count("ecdh_call_sites", len(sites))
 	r.Require(len(sites) >= 2, "floor: fewer than 2 ComputeECDH call sites found (%d)", len(sites))
@@ -436,118 +449,217 @@ func c02R6(p *kit.Program, r *kit.Report) {
 		}
 		ord[kit.FuncName(fn)]++
 		key := fmt.Sprintf("%s ECDH #%d", kit.FuncName(fn), ord[kit.FuncName(fn)])
-		pos := p.Pos(site.Pos())
-		// where does the private key operand live?
-		type loc struct {
-			field *types.Var // stored struct field
-			ptr   ssa.Value  // pointer parameter
-		}
-		var stored []loc
-		fresh := false
-		seen := map[ssa.Value]bool{}
-		var origin func(v ssa.Value)
-		origin = func(v ssa.Value) {
-			if v == nil || seen[v] {
-				return
-			}
-			seen[v] = true
-			switch x := v.(type) {
-			case *ssa.Extract:
-				if c, ok := x.Tuple.(*ssa.Call); ok && kit.CalleeOf(c).Name == "GenerateEphemeralKeypair" {
-					fresh = true
-				}
-			case *ssa.Phi:
-				for _, e := range x.Edges {
-					origin(e)
-				}
-			case *ssa.UnOp:
-				if x.Op != token.MUL {
-					return
-				}
-				switch a := x.X.(type) {
-				case *ssa.FieldAddr:
-					if _, isLocal := a.X.(*ssa.Alloc); isLocal {
-						// field of a local struct: follow its stores
-						kit.Instrs(fn, func(in ssa.Instruction) {
-							if st, ok := in.(*ssa.Store); ok {
-								if fa, ok := st.Addr.(*ssa.FieldAddr); ok && fa.X == a.X && fa.Field == a.Field {
-									origin(st.Val)
-								}
-							}
-						})
-						return
-					}
-					stored = append(stored, loc{field: kit.FieldOfAddr(a)})
-				case *ssa.Alloc:
-					kit.Instrs(fn, func(in ssa.Instruction) {
-						if st, ok := in.(*ssa.Store); ok && st.Addr == a {
+		j := &c02R6Judge{p: p, r: r, seen: map[string]bool{}}
+		j.value(fn, site, kit.Arg(site, 0), key, 0)
+	}
+}
+
+// c02R6Judge follows the private-key operand of one key agreement back to where the key lives.
+// A key that lives in a long-lived location (a field of a struct that is not local to the
+// invocation, or memory reached through a pointer parameter) must be zeroed *in that
+// location*. By-value parameters and pointer parameters are followed into every static caller:
+// zeroing a by-value copy (parameter, local) is a no-op on the owner, so the obligation is
+// placed in the frame where the long-lived location is visible.
+type c02R6Judge struct {
+	p    *kit.Program
+	r    *kit.Report
+	seen map[string]bool
+}
+
+type c02KeyLoc struct {
+	field *types.Var // stored struct field
+	ptr   ssa.Value  // pointer parameter
+}
+
+func c02IsZeroCall(c ssa.CallInstruction) bool {
+	cal := kit.CalleeOf(c)
+	return cal.Pkg == kit.PkgPath("internal/crypto") && (cal.Name == "ZeroKey" || cal.Name == "ZeroBytes")
+}
+
+// origins classifies where the value v (the key, or what is stored at an address when
+// fromAddr) comes from inside fn.
+func (j *c02R6Judge) origins(fn *ssa.Function, v ssa.Value, fromAddr bool) (stored []c02KeyLoc, byVal []*ssa.Parameter, ptrPar []*ssa.Parameter, fresh bool) {
+	seen := map[ssa.Value]bool{}
+	var origin func(v ssa.Value)
+	var contents func(addr ssa.Value)
+	contents = func(addr ssa.Value) {
+		switch a := addr.(type) {
+		case *ssa.FieldAddr:
+			if _, isLocal := a.X.(*ssa.Alloc); isLocal {
+				// field of a local struct: follow its stores
+				kit.Instrs(fn, func(in ssa.Instruction) {
+					if st, ok := in.(*ssa.Store); ok {
+						if fa, ok := st.Addr.(*ssa.FieldAddr); ok && fa.X == a.X && fa.Field == a.Field {
 							origin(st.Val)
 						}
-					})
-				case *ssa.Parameter:
-					stored = append(stored, loc{ptr: a})
-				}
-			}
-		}
-		origin(kit.Arg(site, 0))
-		if len(stored) == 0 {
-			r.OK("C02.R6", key, pos, "private key operand is local to the invocation (fresh keypair=%v)", fresh)
-			continue
-		}
-		// the consuming derivation(s) in the same function
-		var derives []ssa.CallInstruction
-		for _, c := range kit.Calls(fn) {
-			if kit.CalleeOf(c).Is("internal/crypto", "", "DeriveSessionKey") {
-				derives = append(derives, c)
-			}
-		}
-		for _, l := range stored {
-			zeroed := false
-			for _, c := range kit.Calls(fn) {
-				if !isZeroCall(c) || len(c.Common().Args) == 0 {
-					continue
-				}
-				a0 := c.Common().Args[0]
-				match := false
-				if l.field != nil {
-					if ar, ok := kit.AddrRange(a0); ok {
-						if fa, ok := ar.Root.(*ssa.FieldAddr); ok && kit.FieldOfAddr(fa) == l.field {
-							match = true
-						}
 					}
-					if fa, ok := a0.(*ssa.FieldAddr); ok && kit.FieldOfAddr(fa) == l.field {
+				})
+				return
+			}
+			stored = append(stored, c02KeyLoc{field: kit.FieldOfAddr(a)})
+		case *ssa.Alloc:
+			kit.Instrs(fn, func(in ssa.Instruction) {
+				if st, ok := in.(*ssa.Store); ok && st.Addr == a {
+					origin(st.Val)
+				}
+			})
+		case *ssa.Parameter:
+			stored = append(stored, c02KeyLoc{ptr: a})
+			ptrPar = append(ptrPar, a)
+		case *ssa.Phi:
+			for _, e := range a.Edges {
+				if !seen[e] {
+					seen[e] = true
+					contents(e)
+				}
+			}
+		}
+	}
+	origin = func(v ssa.Value) {
+		if v == nil || seen[v] {
+			return
+		}
+		seen[v] = true
+		switch x := v.(type) {
+		case *ssa.Extract:
+			if c, ok := x.Tuple.(*ssa.Call); ok && kit.CalleeOf(c).Name == "GenerateEphemeralKeypair" {
+				fresh = true
+			}
+		case *ssa.Phi:
+			for _, e := range x.Edges {
+				origin(e)
+			}
+		case *ssa.Parameter:
+			if _, isPtr := x.Type().Underlying().(*types.Pointer); !isPtr {
+				byVal = append(byVal, x)
+			}
+		case *ssa.UnOp:
+			if x.Op == token.MUL {
+				contents(x.X)
+			}
+		}
+	}
+	if fromAddr {
+		contents(v)
+	} else {
+		origin(v)
+	}
+	return
+}
+
+// value judges the key operand v of the key-consuming instruction site inside fn.
+func (j *c02R6Judge) value(fn *ssa.Function, site ssa.CallInstruction, v ssa.Value, key string, depth int) {
+	j.frame(fn, site, v, false, key, depth)
+}
+
+func (j *c02R6Judge) frame(fn *ssa.Function, site ssa.CallInstruction, v ssa.Value, fromAddr bool, key string, depth int) {
+	p, r := j.p, j.r
+	pos := p.Pos(site.Pos())
+	stored, byVal, ptrPar, fresh := j.origins(fn, v, fromAddr)
+	if fromAddr {
+		// an address handed to a callee that consumes the key through it: the location itself is
+		// wiped by the callee (judged there); only copies made in this frame matter
+		var keep []c02KeyLoc
+		for _, l := range stored {
+			if fa, ok := v.(*ssa.FieldAddr); ok && l.field == kit.FieldOfAddr(fa) {
+				continue
+			}
+			if l.ptr == v {
+				continue
+			}
+			keep = append(keep, l)
+		}
+		stored = keep
+	}
+	if len(stored) == 0 && len(byVal) == 0 && len(ptrPar) == 0 {
+		if depth == 0 {
+			r.OK("C02.R6", key, pos, "private key operand is local to the invocation (fresh keypair=%v)", fresh)
+		}
+		return
+	}
+	// the consuming derivation(s) in the same function
+	var derives []ssa.CallInstruction
+	for _, c := range kit.Calls(fn) {
+		if kit.CalleeOf(c).Is("internal/crypto", "", "DeriveSessionKey") {
+			derives = append(derives, c)
+		}
+	}
+	for _, l := range stored {
+		zeroed := false
+		for _, c := range kit.Calls(fn) {
+			if !c02IsZeroCall(c) || len(c.Common().Args) == 0 {
+				continue
+			}
+			a0 := c.Common().Args[0]
+			match := false
+			if l.field != nil {
+				if ar, ok := kit.AddrRange(a0); ok {
+					if fa, ok := ar.Root.(*ssa.FieldAddr); ok && kit.FieldOfAddr(fa) == l.field {
 						match = true
 					}
-				} else if a0 == l.ptr {
+				}
+				if fa, ok := a0.(*ssa.FieldAddr); ok && kit.FieldOfAddr(fa) == l.field {
 					match = true
-				} else if ar, ok := kit.AddrRange(a0); ok && ar.Root == l.ptr {
-					match = true
 				}
-				if !match {
-					continue
-				}
-				okAll := len(derives) > 0
-				for _, d := range derives {
-					if !kit.Precedes(c, d) {
-						okAll = false
-					}
-				}
-				if len(derives) == 0 {
-					// no derivation here: the zeroing must at least follow the key agreement
-					okAll = kit.CanReach(site, c)
-				}
-				if okAll {
-					zeroed = true
+			} else if a0 == l.ptr {
+				match = true
+			} else if ar, ok := kit.AddrRange(a0); ok && ar.Root == l.ptr {
+				match = true
+			}
+			if !match {
+				continue
+			}
+			okAll := len(derives) > 0 && depth == 0
+			for _, d := range derives {
+				if !kit.Precedes(c, d) {
+					okAll = false
 				}
 			}
-			what := "pointer parameter"
-			if l.field != nil {
-				what = "field " + l.field.Name()
+			if len(derives) == 0 || depth > 0 {
+				// no derivation here (or the key was consumed by a callee): the zeroing must at
+				// least follow the key agreement / the call that consumed the key
+				okAll = kit.CanReach(site, c)
 			}
-			r.Decide(zeroed, "C02.R6", key+" consumes "+what, pos,
-				"the stored private key is zeroed in place before the session key is derived",
-				"the stored ephemeral private key ("+what+") is not zeroed in place before the session key is derived: a duplicated handshake reply re-derives the same key with send/receive counters reset to zero, so nonces are reused under one key")
+			if okAll {
+				zeroed = true
+			}
 		}
+		what := "pointer parameter"
+		if l.field != nil {
+			what = "field " + l.field.Name()
+		}
+		k := key + " consumes " + what
+		if j.seen[k] {
+			continue
+		}
+		j.seen[k] = true
+		r.Decide(zeroed, "C02.R6", k, pos,
+			"the stored private key is zeroed in place before the session key is derived",
+			"the stored ephemeral private key ("+what+") is not zeroed in place (zeroing a by-value copy does not reach it) before the session key is derived: a duplicated handshake reply re-derives the same key with send/receive counters reset to zero, so nonces are reused under one key")
+	}
+	if depth >= 4 {
+		return
+	}
+	// follow parameters into the callers
+	follow := func(prm *ssa.Parameter, asAddr bool) {
+		pi := kit.ParamIndex(prm)
+		callers := p.StaticCallers(fn)
+		ord := map[string]int{}
+		for _, c := range callers {
+			cf := c.Parent()
+			ord[kit.FuncName(cf)]++
+			arg := kit.ArgAt(c, pi)
+			if arg == nil {
+				continue
+			}
+			j.frame(cf, c, arg, asAddr, fmt.Sprintf("%s <- %s #%d", key, kit.FuncName(cf), ord[kit.FuncName(cf)]), depth+1)
+		}
+	}
+	for _, prm := range byVal {
+		follow(prm, false)
+	}
+	for _, prm := range ptrPar {
+		follow(prm, true)
 	}
 }
 
